@@ -183,17 +183,14 @@ Record pstate := {
 (* FieldMappingTransformationBase.apply on a correlation rule *)
 Definition step (f : str -> list str) (st : pstate) : outcome pstate :=
   let fields := flat_map f (ps_fields st) in
-  obind (match ps_gb st with
-         | None => Ok (ps_aliases st, None)          (* aliases are only mapped inside "if group_by" *)
-         | Some g =>
-           obind (mapM (fun am : str * list (str * nat * str) =>
-                          obind (mapM (fun e : str * nat * str =>
-                                         obind (single (f (snd e))) (fun fl => Ok (fst e, fl)))
-                                      (snd am))
-                                (fun mp => Ok (fst am, mp)))
-                       (ps_aliases st))
-                 (fun als => Ok (als, Some (flat_map (fun x => if mem_str x (map fst (ps_aliases st)) then [x] else f x) g)))
-         end)
+  obind (obind (mapM (fun am : str * list (str * nat * str) =>
+                        obind (mapM (fun e : str * nat * str =>
+                                       obind (single (f (snd e))) (fun fl => Ok (fst e, fl)))
+                                    (snd am))
+                              (fun mp => Ok (fst am, mp)))
+                     (ps_aliases st))
+               (fun als => Ok (als, option_map (flat_map (fun x => if mem_str x (map fst (ps_aliases st)) then [x] else f x))
+                                               (ps_gb st))))
         (fun ag =>
            obind (match ps_cf st with
                   | FNone => Ok FNone
